@@ -243,6 +243,9 @@ Definition c08_ok (q : request) (o : xobs) : bool :=
   | Some (dt, src) =>
       let tc := x_start o + dt in
       cause_named src (x_out o) && fb_not_on_cancelled (x_events o) &&
+      (* an execution that ends at the very instant of the cancellation was ended by it (coincidences are schedule-dependent
+         and not judged): it reports the cause *)
+      (if x_end o =? tc then match snd (x_out o) with Some e => same_cancel_kind e src | None => false end else true) &&
       if x_end o <? tc then true
       else
         (Z.of_nat (length (filter (fun e => kind_is KFnStart e && (tc <? e_time e)) (x_events o))) <=? 1)
